@@ -324,3 +324,114 @@ def _dfa_of_prog(prog, atoms):
             row.append(ids[t])
         delta[ids[s]] = row
     return rx.DFA(atoms, delta, 0, accept)
+
+
+# ---------------------------------------------------------------------------
+# left contexts: no other rule may consume the opener of a region that begins after the rule's own start
+
+OPENERS = [
+    ('dash line comment', '--', ' x; y\n', ('Comment', 'Single')),
+    ('block comment', '/*', ' x; y */', ('Comment', 'Multiline')),
+    ('single-quoted string', "'", "x; y'", ('Literal', 'String', 'Single')),
+    ('double-quoted name', '"', 'x; y"', ('Literal', 'String', 'Symbol')),
+    ('backtick name', '`', 'x; y`', ('Name',)),
+]
+REGION_TYPES = (('Comment',), ('Literal', 'String'), ('Literal',))
+
+
+def _words(dfa, limit):
+    """accepted words in order of length (breadth first over the DFA, one representative character per atom)"""
+    live = dfa.live_states()
+    if dfa.start not in live:
+        return
+    work = [(dfa.start, '')]
+    n = 0
+    depth = 0
+    while work and n < limit and depth < 8:
+        nxt = []
+        for s_, w in work:
+            if s_ in dfa.accept and w:
+                n += 1
+                yield w
+                if n >= limit:
+                    return
+            for k, t in enumerate(dfa.delta[s_]):
+                if t in live:
+                    nxt.append((t, w + rx.rep(dfa.atoms[k])))
+        # keep the frontier small: one word per state and length is enough to reach every shape
+        seen, work = set(), []
+        for t, w in nxt:
+            if (t, w[:2], w[-2:]) not in seen:
+                seen.add((t, w[:2], w[-2:]))
+                work.append((t, w))
+        depth += 1
+
+
+def check_opener_left_contexts(ctx, rid):
+    """The region rules decide the extent of a comment/literal once the lexer *starts* a token at its opener (R14.1).  This rule
+    closes the other half: for every rule R that is not itself a region rule, L(R) and the words `u o z` (u non-empty, o an
+    opener) are intersected as automata; a non-empty intersection is a candidate left context, confirmed by lexing the witness
+    followed by a region body with the table (regex constants on a string constant).  If the token boundary does not fall in
+    front of the opener, the body -- semicolons, keywords, quotes -- is lexed as ordinary SQL."""
+    T = get_tables(ctx)
+    import re as _re
+    n = 0
+    for r in T.lex:
+        act = tuple(r.action) if isinstance(r.action, TT) else ()
+        if any(act[:len(t)] == t for t in REGION_TYPES) or r.pattern[:1] in ('`', '´', '"', "'"):
+            continue
+        try:
+            prog = rx.Prog(None, rx.LEXFLAGS, tree=r.tree)
+        except rx.Unsupported as e:
+            ctx.ob(rid, f'left:{r.index}', f'{T.kwmod.relpath}:{r.line}', 'rule compilable to an automaton', None, str(e))
+            continue
+        for name, op, body, fam in OPENERS:
+            atoms = rx.atoms_of(prog.charsets() + [rx.bit(c) for c in op])
+            d = _dfa_of_prog(prog, atoms)
+            # words of L(R) that end with a non-empty prefix of the opener (the rule has eaten into the opener) or contain it entirely
+            alts = '|'.join(_re.escape(op[:i]) for i in range(len(op), 0, -1))
+            pat = r'[\s\S]+(?:' + _re.escape(op) + r'[\s\S]*|' + alts + ')'
+            inter = d.intersect(rx.DFA.from_pattern(pat, atoms))
+            n += 1
+            key = f'left:{name}:rule{r.index}'
+            loc = f'{T.kwmod.relpath}:{r.line}'
+            # a rule that spells the opener out as a literal matches that text on purpose (embedded literals: R14.6)
+            outside = _re.sub(r'\\.|\[(?:\\.|[^\]])*\]', '', r.pattern)
+            if op.strip() in outside and not op.strip().isalnum():
+                ctx.ob(rid, key, loc, f'rule #{r.index} spells {op!r} out itself (embedded delimiter, see the quote-agreement rule)', True)
+                continue
+            # candidate left contexts: shortest words of the intersection for which the table really selects rule r at position 0
+            w = None
+            for cand in _words(inter, 400):
+                # complete the opener behind the candidate
+                if op in cand[1:]:
+                    k0 = cand.rfind(op)
+                else:
+                    plen = max(i for i in range(1, len(op) + 1) if cand.endswith(op[:i]))
+                    k0 = len(cand) - plen
+                    cand = cand + op[plen:]
+                r0, end0, _ = T.lex_one(cand + body + ' z', 0)
+                if r0 is r and end0 > k0 > 0:
+                    w = cand
+                    break
+            if w is None:
+                ctx.ob(rid, key, loc, f'rule #{r.index} {r.pattern[:40]!r} cannot run into the opener {op!r} of a {name}', True)
+                continue
+            # confirm on the table: left context = the part of the witness in front of the (last) opener occurrence
+            k = w.rfind(op)
+            left = w[:k]
+            text = left + op + body + ' z'
+            toks = T.lex_all(text)
+            pos, hit = 0, None
+            for (tt, val) in [(t[0], t[1]) for t in toks]:
+                if pos == len(left):
+                    hit = (tt, val)
+                    break
+                if pos > len(left):
+                    break
+                pos += len(val)
+            ok = hit is not None and isinstance(hit[0], TT) and tuple(hit[0])[:len(fam)] == fam and hit[1].startswith(op)
+            ctx.ob(rid, key, loc, f'after a token matched by rule #{r.index} the opener {op!r} still starts a {name} token', ok,
+                   f'in {text!r} rule #{r.index} {r.pattern!r} consumes {w!r}: the {name} that starts right after {left!r} is not recognised and its body '
+                   f'is lexed as SQL (tokens: {[(repr(t[0]), t[1]) for t in toks][:5]})')
+    ctx.need(n >= 100, f'only {n} rule x opener pairs analysed')
